@@ -111,6 +111,7 @@ type btrack struct {
 	incarnAcc  int
 	reinjected int
 	absentEpoch int
+	dtlsrJudged bool
 	spray       *sprayState
 	subSeq      int // order of injection
 	reports     map[string]int
@@ -328,6 +329,7 @@ type nodeSim struct {
 	serialNo   int
 
 	retryEvery time.Duration
+	dst        *dtlsrState
 	pst        *prophetState
 	vecSeq     int
 	emitted    map[string]bool
@@ -460,6 +462,7 @@ func (n *nodeSim) settle() {
 			rec.doneEpoch = n.epoch
 			n.lg.Add("release send p%d %s %s -> %s", rec.peer, rec.kind, rec.tag, out)
 			n.onSendDone(rec)
+			n.dtlsrBroadcastSend(rec, true)
 			n.sched.Release(t, out)
 		} else {
 			n.lg.Add("release %s:%s", t.Point, shortKey(t.Key))
@@ -474,6 +477,9 @@ func (n *nodeSim) settle() {
 						}
 					}
 				}
+			}
+			if t.Point == "store.cron" && n.algo == "dtlsr" {
+				n.dtlsrCron(t.Key)
 			}
 			if t.Point == "store.cron" && t.Key == "dtlsr_recompute" && n.algo == "prophet" {
 				n.prophetOnAgeTick() // PRoPHET registers its ageing job under this name
@@ -616,6 +622,7 @@ func (n *nodeSim) noteSend(rec *sendRec, t *simk.Task) {
 		tr.sends = append(tr.sends, rec)
 	}
 	n.lg.Add("send-invoked p%d %s %s id=%s", rec.peer, rec.kind, rec.tag, rec.idStr)
+	n.dtlsrBroadcastSend(rec, false)
 	if rec.kind == "meta" && n.algo == "prophet" {
 		n.prophetEmission(rec)
 	}
@@ -864,6 +871,8 @@ func (n *nodeSim) exec(op simk.Op) {
 		n.advance(time.Duration(op.N) * time.Millisecond)
 	case "restart":
 		n.opRestart(time.Duration(op.N) * time.Millisecond)
+	case "ls":
+		n.execLS(op.P, int(op.M), op.N, op.X)
 	case "vec":
 		n.execVec(op.P, op.X, op.M != 0)
 	case "set_fail":
@@ -974,6 +983,22 @@ func (n *nodeSim) opDeliver(op simk.Op) {
 		if _, there := n.storeItem(old.id); !there {
 			// the node no longer holds it (delivered, forwarded and released, deleted): a fresh reception
 			old.spray = nil
+			old.tAccept = time.Now()
+			old.epochAcc = n.epoch + 1
+			old.incarnAcc = n.incarn
+			old.dtlsrJudged = true
+			if old.bundle.PrimaryBlock.CreationTimestamp.IsZeroTime() {
+				age := time.Duration(0)
+				if sp.AgeMs > 0 {
+					age = time.Duration(sp.AgeMs) * time.Millisecond
+				}
+				old.expiry = old.tAccept.Add(old.life - age)
+			} else if sp.AgeMs >= 0 {
+				if e2 := old.tAccept.Add(old.life - time.Duration(sp.AgeMs)*time.Millisecond); e2.Before(old.expiry) {
+					old.expiry = e2
+				}
+			}
+			n.res.Probe("fresh_reception_of_released_bundle")
 		}
 		wire = old.wire
 	} else {
@@ -1024,6 +1049,7 @@ func (n *nodeSim) opPeerUp(p int) {
 	ps.upEpoch = n.epoch + 1
 	c := n.core
 	n.prophetOnPeerUp(ps)
+	n.dtlsrPeerUp(ps)
 	n.inject("peer_up:p"+strconv.Itoa(p), func() { c.RegisterConvergable(inst) })
 	n.onPeerUp(ps)
 }
@@ -1038,6 +1064,9 @@ func (n *nodeSim) opPeerDown(p int) {
 	}
 	ps.up = false
 	n.res.Fault("peer_down")
+	if n.connected2(ps) {
+		n.dtlsrPeerDown(ps)
+	}
 	// the adapter notices the loss (like a failing keep-alive) and reports it
 	var insts []*simPeer
 	for _, in := range ps.insts {
@@ -1092,6 +1121,7 @@ func (n *nodeSim) opRestart(down time.Duration) {
 	}
 	n.onRestart()
 	n.prophetOnRestart()
+	n.dst = nil
 	for _, tr := range n.tracks {
 		// spray budgets live in memory only; the statement does not quantify over restarts
 		n.sprayOf(tr).unknown = true
@@ -1150,4 +1180,14 @@ func TestSimWorker(t *testing.T) {
 	}
 	simT = t
 	os.Exit(simk.WorkerMain(simWorkerHarnesses()))
+}
+
+// connected2: some adapter instance of the peer is started (regardless of ps.up)
+func (n *nodeSim) connected2(ps *peerState) bool {
+	for _, in := range ps.insts {
+		if in.isStarted() && !in.dead {
+			return true
+		}
+	}
+	return false
 }
